@@ -148,9 +148,15 @@ def run_c10(case, tmp):
     if lay['ver'] == 3:
         raw = real_decompress(payload)
         o['lz'] = raw.hex() if raw is not None else None
+    import time
+    t0 = time.time()
     o['read'] = observe_reader(path, [])
+    o['t_read'] = round(time.time() - t0, 3)
     if o['read']['cls'] == 0:
         w, n = lay['w'], lay['n']
+        o['nseg'], o['hdr'] = n, 20 + (12 if lay['ver'] != 0 else 0)
+        o['wb'] = WB.get(w, 1)
+        o['fd_len'] = len(raw) if raw is not None else 0
         tb = data[lay['off'] - 32 * n: lay['off']]
         o['table'] = [list(struct.unpack('<QQQQ', tb[32 * i: 32 * i + 32])) for i in range(n)]
         o['pool'] = len(raw) // WB[w] if raw is not None and w in WB else 0
